@@ -171,6 +171,10 @@ class Ctx:
         from . import run
         for name, gen in families:
             self.family(name, (gen.__doc__ or '').strip())
+            only = os.environ.get('VERIF_ONLY_FAMILY')     # development aid: other families are reported incomplete
+            if only and not any(name.startswith(o) for o in only.split(',')):
+                self.done(name, False)
+                continue
             if run.Deadline.hit or self.timed_out():
                 self.done(name, False)
                 continue
